@@ -120,7 +120,7 @@ class FilterSummary:
                 if isinstance(t, ast.Name) and t.id not in self.chain and v is not None and k == "assign" and self._base_of(v) is not None:
                     self.chain.add(t.id)
                     changed = True
-        stores = [(s.lineno, t.id, v, s) for t, v, s, k in iter_stores(fn.node) if isinstance(t, ast.Name) and t.id in self.chain and v is not None and k == "assign"]
+        stores = [(getattr(s, "_ord", s.lineno), t.id, v, s) for t, v, s, k in iter_stores(fn.node) if isinstance(t, ast.Name) and t.id in self.chain and v is not None and k == "assign"]
         stores.sort(key=lambda x: x[0])
         for _l, tname, v, s in stores:
             base = self._base_of(v)
